@@ -3,9 +3,13 @@
 //!
 //! case: {"op":"solve", "problem": <pragmatic problem>, "matrices": [<matrix>...],
 //!        "config": {"max_generations": n, "parallelism": [pools, threads] | null,
-//!                   "quota_after_polls": k | null, "seed": s, "outer_threads": t (default 1)}}
+//!                   "quota_after_polls": k | null, "seed": s, "outer_threads": t (default 1),
+//!                   "trace": n (default 0: record the first n bookkeeping states, see "trace" below)}}
 //! res:  {"solution": <pragmatic solution JSON value>, "polls": quota polls seen, "generations": telemetry generations,
-//!        "evolution": number of telemetry evolution entries, "core_cost": Solution.cost (integer or "nonint:..")}
+//!        "evolution": number of telemetry evolution entries, "core_cost": Solution.cost (integer or "nonint:.."),
+//!        "core": {"routes": [{"vehicle","shift","jobs": [job id per job activity, tour order]}], "unassigned": [job ids]}}
+//!        "trace": [{"routes": [[job ids of tour.jobs()]], "required": [...], "unassigned": [...], "ignored": [...]}]
+//!                 = SolutionContext after each insertion applied by InsertionHeuristic::process on the solving thread}
 //!       | {"error": "<message>"}   (validation / reader / solver error)
 //! A panic anywhere in the real code is reported by the case loop as {"panic": msg}.
 //!
@@ -13,13 +17,18 @@
 //! `seed` draws are burnt from the repeatable generator first. With outer_threads = 1 and parallelism = null the run is
 //! deterministic; otherwise thread scheduling may influence the result (that is part of what is being tested).
 use serde_json::{json, Value};
+use std::cell::RefCell;
 use std::io::BufWriter;
+use std::rc::Rc;
 use std::sync::atomic::{AtomicUsize, Ordering};
 use std::sync::Arc;
+use vrp_core::construction::heuristics::{verif_hooks, InsertionContext};
 use vrp_core::prelude::*;
 use vrp_core::rosomaxa::evolution::TelemetryMode;
 use vrp_core::rosomaxa::utils::{DefaultRandom, Parallelism, Quota, Random};
+use vrp_core::models::problem::{JobIdDimension, VehicleIdDimension};
 use vrp_pragmatic::format::problem::PragmaticProblem;
+use vrp_pragmatic::format::ShiftIndexDimension;
 use vrp_pragmatic::format::solution::{write_pragmatic, PragmaticOutputType};
 
 /// turns true at its k-th poll (1-based; k = 0: true from the very first poll) and stays true
@@ -86,9 +95,34 @@ fn solve(case: &Value) -> Value {
         Ok(c) => c,
         Err(e) => return json!({"error": format!("config: {}", e)}),
     };
-    let solution = match Solver::new(core_problem.clone(), config).solve() {
+    // bookkeeping trace: the four homes of a job as the real InsertionContext holds them after every insertion applied by
+    // InsertionHeuristic::process ON THIS THREAD (hook in insertions.rs, thread-local observer); at most `trace` states
+    let trace_limit = cfg["trace"].as_u64().unwrap_or(0) as usize;
+    let trace: Rc<RefCell<Vec<Value>>> = Rc::new(RefCell::new(vec![]));
+    if trace_limit > 0 {
+        let sink = trace.clone();
+        verif_hooks::set_insertion_observer(Some(Box::new(move |ctx: &InsertionContext| {
+            let mut sink = sink.borrow_mut();
+            if sink.len() >= trace_limit {
+                return;
+            }
+            let jid = |job: &vrp_core::models::problem::Job| job.dimens().get_job_id().cloned().unwrap_or_default();
+            let sol = &ctx.solution;
+            let routes: Vec<Vec<String>> =
+                sol.routes.iter().map(|rc| rc.route().tour.jobs().map(|j| jid(j)).collect()).collect();
+            sink.push(json!({
+                "routes": routes,
+                "required": sol.required.iter().map(|j| jid(j)).collect::<Vec<_>>(),
+                "unassigned": sol.unassigned.keys().map(|j| jid(j)).collect::<Vec<_>>(),
+                "ignored": sol.ignored.iter().map(|j| jid(j)).collect::<Vec<_>>(),
+            }));
+        })));
+    }
+    let solved = Solver::new(core_problem.clone(), config).solve();
+    verif_hooks::set_insertion_observer(None);
+    let solution = match solved {
         Ok(s) => s,
-        Err(e) => return json!({"error": format!("solve: {}", e)}),
+        Err(e) => return json!({"error": format!("solve: {}", e), "trace": Value::Array(trace.borrow().clone())}),
     };
 
     let mut buf = BufWriter::new(Vec::new());
@@ -104,8 +138,24 @@ fn solve(case: &Value) -> Value {
     if let Some(obj) = doc.as_object_mut() {
         obj.remove("extras");
     }
+    // the core solution's own bookkeeping (what the writer is given): per route the vehicle, shift and the job id of
+    // every job activity in tour order; the ids of the unassigned jobs (conditional jobs carry a vehicle id)
+    let job_id_of = |job: &vrp_core::models::problem::Job| job.dimens().get_job_id().cloned().unwrap_or_default();
+    let routes: Vec<Value> = solution
+        .routes
+        .iter()
+        .map(|r| {
+            let dimens = &r.actor.vehicle.dimens;
+            let ids: Vec<String> =
+                r.tour.all_activities().filter_map(|a| a.retrieve_job()).map(|j| job_id_of(&j)).collect();
+            json!({"vehicle": dimens.get_vehicle_id().cloned(), "shift": dimens.get_shift_index().copied(), "jobs": ids})
+        })
+        .collect();
+    let unassigned: Vec<String> = solution.unassigned.iter().map(|(j, _)| job_id_of(j)).collect();
     json!({
         "solution": doc,
+        "core": {"routes": routes, "unassigned": unassigned},
+        "trace": Value::Array(trace.borrow().clone()),
         "polls": quota.polls.load(Ordering::SeqCst),
         "generations": solution.telemetry.as_ref().map(|t| t.generations),
         "evolution": solution.telemetry.as_ref().map(|t| t.evolution.len()),
